@@ -119,6 +119,7 @@ class Reshape(Harness):
             cands = [tuple("xyz"[:len(names)])] + [p for p in itertools.permutations(names) if list(p) != names]
             cands += [tuple(["x"] + names[1:])] if len(names) > 1 else []
             inp["names"] = list(choice("new", cands))
+            inp["names_form"] = choice("names_form", ["list", "tuple", "iter"])
         return inp
     def regions(self, inp):
         return {}
